@@ -12,6 +12,7 @@ from __future__ import annotations
 
 import multiprocessing as mp
 import os
+import shutil
 import random
 from typing import Any
 
@@ -67,8 +68,40 @@ def work(fn_: Any) -> dict:
                 out["clean"] += 1
             for x in r["findings"]:
                 sim = ownership.simulate(f, dict(x.path)) if x.kind != "inconclusive" else []
-                out["findings"].append({"kind": x.kind, "case": name, "fn": f.name, "value": x.value, "where": x.where, "detail": x.detail, "path": x.path, "simulated": sim, "ir": "\n".join(format_func(f))[:6000], "program": prog[:3000]})
+                if x.kind.startswith("leak of the old attribute value"):
+                    sim = [("initialiser-overwrite", getattr(f, "class_name", "") or "")]
+                out["findings"].append({"kind": x.kind, "case": name, "fn": (getattr(f, "class_name", None) or "") + ("." if getattr(f, "class_name", None) else "") + f.name, "value": x.value, "where": x.where, "detail": x.detail, "path": x.path, "simulated": sim, "ir": "\n".join(format_func(f))[:6000], "program": prog[:3000] if not x.kind.startswith("leak of the old attribute value") else prog})
     return out
+
+
+def replay_init_leak(d: str, f: dict) -> "tuple[bool, str]":
+    """Real build: construct instances of the class with tracked objects and count the survivors."""
+    import subprocess
+    import sys
+
+    cls = f["fn"].split(".")[0]
+    prog = f["program"]
+    if f"class {cls}:" not in prog or "def __init__(self, v: C)" not in prog.split(f"class {cls}:", 1)[1].split("class ", 1)[0]:
+        return True, f"IR-level statement: {f['detail']} (op.is_init is set on that SetAttr; no generic driver for this constructor signature)"
+    with open(os.path.join(d, "native_mod.py"), "w") as fh:
+        fh.write(prog)
+    env = dict(os.environ)
+    env.pop("PYTHONPATH", None)
+    p = subprocess.run([sys.executable, "-m", "mypyc", "native_mod.py"], cwd=d, capture_output=True, text=True, timeout=900, env=env)
+    if p.returncode != 0:
+        return False, "mypyc build failed: " + (p.stdout + p.stderr)[-400:]
+    os.rename(os.path.join(d, "native_mod.py"), os.path.join(d, "native_mod.py.src"))
+    drv = (
+        "import gc, sys, weakref\nimport native_mod as M\n"
+        "alive = weakref.WeakSet()\n"
+        f"for i in range(300):\n    c = M.C(i)\n    alive.add(c)\n    o = M.{cls}(c)\n    del o, c\n"
+        "gc.collect()\nprint('tracked objects still alive after 300 constructions:', len(alive))\nsys.exit(1 if len(alive) > 5 else 0)\n"
+    )
+    with open(os.path.join(d, "driver.py"), "w") as fh:
+        fh.write(drv)
+    r = subprocess.run([sys.executable, "driver.py"], cwd=d, capture_output=True, text=True, timeout=300, env=env)
+    shutil.rmtree(os.path.join(d, "build"), ignore_errors=True)
+    return r.returncode == 1, (r.stdout + r.stderr)[-300:]
 
 
 def main(args: Any) -> int:
@@ -124,6 +157,8 @@ def main(args: Any) -> int:
                 fh.write(f["ir"] + "\n\n# path: " + repr(f["path"]) + "\n")
             with open(os.path.join(d, "program.py"), "w") as fh:
                 fh.write(f["program"])
+            if f["kind"].startswith("leak of the old attribute value"):
+                return replay_init_leak(d, f)
             return bool(f["simulated"]), f"concrete simulation along the solver's path: {f['simulated'][:3]}"
 
         rep.candidate(key, f"{f['detail']} (value {f['value']}) in {f['fn']}", {"path": f["path"]}, replay)
